@@ -255,9 +255,16 @@ def _none_condition(t, depth=0):
             return unop("not", c)
         if a is b and a in (True, False):
             return a
-        ta = const(True) if a is True else (const(False) if a is False else a)
-        tb = const(True) if b is True else (const(False) if b is False else b)
-        return boolop("or", [boolop("and", [c, ta]), boolop("and", [unop("not", c), tb])])
+        # (c and A) or (not c and B), in the shortest equivalent spelling
+        if a is True:
+            return boolop("or", [c, b])
+        if a is False:
+            return boolop("and", [unop("not", c), b])
+        if b is True:
+            return boolop("or", [unop("not", c), a])
+        if b is False:
+            return boolop("and", [c, a])
+        return boolop("or", [boolop("and", [c, a]), boolop("and", [unop("not", c), b])])
     if _never_none(t):
         return False
     return None
